@@ -3,12 +3,15 @@ package packp
 import (
 	"fmt"
 	"io"
+	"slices"
 	"sort"
 	"strings"
 
 	"github.com/go-git/go-git/v6/plumbing"
+	"github.com/go-git/go-git/v6/plumbing/format/config"
 	"github.com/go-git/go-git/v6/plumbing/format/pktline"
 	"github.com/go-git/go-git/v6/plumbing/protocol"
+	"github.com/go-git/go-git/v6/plumbing/protocol/capability"
 )
 
 // Encode writes the AdvRefs encoding to a writer.
@@ -33,9 +36,14 @@ func (a *AdvRefs) Encode(w io.Writer) error {
 	// Write first line: hash SP refname NUL capabilities
 	caps := a.Capabilities.String()
 	if firstName == "" {
-		// No refs: zero-id capabilities^{}
+		// No refs: zero-id capabilities^{}. The zero id has the width of
+		// the advertised object format, which is how Git parses the line.
+		zeroID := plumbing.ZeroHash.String()
+		if slices.Contains(a.Capabilities.Get(capability.ObjectFormat), config.SHA256.String()) {
+			zeroID = strings.Repeat("0", config.SHA256.HexSize())
+		}
 		firstLine := fmt.Sprintf("%s %s\x00%s\n",
-			plumbing.ZeroHash.String(), "capabilities^{}", caps)
+			zeroID, "capabilities^{}", caps)
 		if _, err := pktline.WriteString(w, firstLine); err != nil {
 			return err
 		}
